@@ -1,2 +1,6 @@
 import Proofs.Basic
 import Proofs.Encode
+import Proofs.Session
+import Proofs.SessionInv
+import Proofs.SessionTrace
+import Proofs.Store
